@@ -18,7 +18,7 @@ REQUIRED_LABELS = ["C12:completed-by-deadline", "C15:hopeless-request-not-placed
 
 
 def worlds(tier):
-    ws = c15.worlds(tier)
+    ws = [x for x in c15.worlds(tier) if x.get("kind") != "direct"]  # whole runs only (the direct-call world belongs to C15)
     return [x for x in ws if x["name"].startswith(("2req", "4req"))] if tier == "quick" else ws
 
 
